@@ -116,6 +116,20 @@ pub fn check_c17(c: &EncCase, acc: &mut Acc, record: bool) -> Verdict {
                     1 => e(desert::serialize(&v.as_slice(), SizeCalculator::new())),
                     _ => e(desert::serialize(&std::rc::Rc::<[()]>::from(v), SizeCalculator::new())),
                 }
+                .and_then(|n| {
+                    // the same length as a fixed-size array type (zero-sized, so it costs nothing to build)
+                    let arr = match *len {
+                        2147483648 => Some(e(desert::serialize(&[(); 2147483648], SizeCalculator::new()))),
+                        3000000000 => Some(e(desert::serialize(&[(); 3000000000], SizeCalculator::new()))),
+                        4294967296 => Some(e(desert::serialize(&[(); 4294967296], SizeCalculator::new()))),
+                        _ => None,
+                    };
+                    match arr {
+                        Some(Ok(k)) => Err(vmodel::ErrInfo::new("ArrayAccepted", &format!("[(); {len}] was encoded to {k} bytes"))),
+                        Some(Err(x)) if x.kind != "LengthTooLarge" => Err(x),
+                        _ => Ok(n),
+                    }
+                })
             });
             let too_large = *len > i32::MAX as usize;
             if record {
@@ -208,7 +222,7 @@ fn case_strategy() -> proptest::strategy::BoxedStrategy<EncCase> {
         2 => (big.clone(), 0usize..6).prop_map(|(h, real)| EncCase::Iter { lo: h, hi: Some(h), real: if h < 40 { h } else { real } }),
         1 => (0usize..20, 0usize..20, 0usize..6).prop_map(|(a, b, real)| EncCase::Iter { lo: a.min(b), hi: if a == b { None } else { Some(a.max(b)) }, real }),
         // (a count of exactly i32::MAX is legal and would be iterated 2^31 times: the boundary itself is covered by Iter)
-        1 => (prop_oneof![0usize..100, Just(100_000usize), Just(i32::MAX as usize + 1), Just(3_000_000_000usize), Just(usize::MAX)], 0u8..3).prop_map(|(len, shape)| EncCase::Zst { len, shape }),
+        1 => (prop_oneof![0usize..100, Just(100_000usize), Just(i32::MAX as usize + 1), Just(3_000_000_000usize), Just(4_294_967_296usize), Just(usize::MAX)], 0u8..3).prop_map(|(len, shape)| EncCase::Zst { len, shape }),
         1 => (0u8..3).prop_map(|kind| EncCase::UnknownField { kind }),
     ]
     .boxed()
